@@ -41,6 +41,10 @@ type c20Case struct {
 	// SlowScans: the extra patterns have no literal prefix, so each one walks
 	// the whole of a heavy line (a line can take seconds)
 	SlowScans bool `json:"slow_scans,omitempty"`
+	// Sibling: a second program, never reloaded, that is as busy with every
+	// line as the first (the dispatcher waits on one of them while the other is
+	// reloaded); it must see every line exactly once
+	Sibling bool `json:"sibling,omitempty"`
 }
 
 func c20Source(ver, scans int, elseStop bool) string {
@@ -87,6 +91,34 @@ func runC20(c c20Case) (*vstat.Failure, c20Info) {
 		if err := e.r.CompileAndRun(name, strings.NewReader(running)); err != nil {
 			return vstat.Failf("load-error", "%v", err)
 		}
+		sib := "s_" + tag + ".mtail"
+		if c.Sibling {
+			var sb strings.Builder
+			sb.WriteString("counter sib_lines\n")
+			for i := 0; i < c.Scans; i++ {
+				if c.SlowScans {
+					fmt.Fprintf(&sb, "/[pq]+[qr]%d+zz$/ {\n  sib_lines += 1000\n}\n", i)
+				} else {
+					fmt.Fprintf(&sb, "/qq%dzz$/ {\n  sib_lines += 1000\n}\n", i)
+				}
+			}
+			sb.WriteString("/$/ {\n  sib_lines++\n}\n")
+			if err := e.r.CompileAndRun(sib, strings.NewReader(sb.String())); err != nil {
+				return vstat.Failf("load-error", "sibling: %v", err)
+			}
+		}
+		// a reload that does not come back is a violation, not a reason to wait
+		// for the driver's time limit
+		load := func(text string) error {
+			done := make(chan error, 1)
+			go func() { done <- e.r.CompileAndRun(name, strings.NewReader(text)) }()
+			select {
+			case err := <-done:
+				return err
+			case <-time.After(90 * time.Second):
+				panic(vstat.Hang{Msg: "a reload (CompileAndRun) did not return within 90 s while lines were being processed"})
+			}
+		}
 		base := processed(name)
 		sent := make(chan int, c.N+1)
 		payloads := map[int]string{}
@@ -97,6 +129,8 @@ func runC20(c c20Case) (*vstat.Failure, c20Info) {
 		var handed atomic.Int64 // lines (junk included) the runtime has taken
 		go func() {
 			defer close(feedDone)
+			// a case that fails closes the line channel while lines are still being fed
+			defer func() { _ = recover() }()
 			for id := 1; id <= c.N; id++ {
 				if us := c.PauseUs[id]; us > 0 {
 					time.Sleep(time.Duration(us) * time.Microsecond)
@@ -132,22 +166,22 @@ func runC20(c c20Case) (*vstat.Failure, c20Info) {
 			info.reloads++
 			switch rl.Kind {
 			case "broken":
-				if err := e.r.CompileAndRun(name, strings.NewReader(c20SourceX(ver, c.Scans, c.ElseStop, c.SlowScans, "gauge")+"undeclared_metric++\n")); err == nil {
+				if err := load(c20SourceX(ver, c.Scans, c.ElseStop, c.SlowScans, "gauge") + "undeclared_metric++\n"); err == nil {
 					return vstat.Failf("harness", "a text that uses an undeclared metric was loaded")
 				}
 			case "same":
-				if err := e.r.CompileAndRun(name, strings.NewReader(running)); err != nil {
+				if err := load(running); err != nil {
 					return vstat.Failf("reload-error", "reloading the running version's own text: %v", err)
 				}
 			case "kind":
 				text := c20SourceX(ver, c.Scans, c.ElseStop, c.SlowScans, "timer")
-				if err := e.r.CompileAndRun(name, strings.NewReader(text)); err == nil {
+				if err := load(text); err == nil {
 					running = text
 					info.kindAccepted++
 				}
 			default:
 				text := c20SourceX(ver, c.Scans, c.ElseStop, c.SlowScans, "gauge")
-				if err := e.r.CompileAndRun(name, strings.NewReader(text)); err != nil {
+				if err := load(text); err != nil {
 					if info.kindAccepted > 0 {
 						// `last` is a timer now: the gauge text may be refused in turn
 						continue
@@ -199,6 +233,22 @@ func runC20(c c20Case) (*vstat.Failure, c20Info) {
 			}
 			return nil
 		})
+		if c.Sibling {
+			var sibLines int64 = -1
+			_ = e.store.Range(func(m *metrics.Metric) error {
+				if m.Program == sib && m.Name == "sib_lines" {
+					m.RLock()
+					for _, lv := range m.LabelValues {
+						sibLines = datum.GetInt(lv.Value)
+					}
+					m.RUnlock()
+				}
+				return nil
+			})
+			if want := handed.Load(); sibLines != want {
+				return vstat.Failf("sibling-program-missed-lines", "the program that was never reloaded counted %d lines, %d were handed to the runtime", sibLines, want)
+			}
+		}
 		if nSeen != 1 {
 			return vstat.Failf("metric-count", "the store holds %d metrics named seen for the program", nSeen)
 		}
@@ -293,6 +343,10 @@ func TestC20(t *testing.T) {
 				// and the reload gets hold of the program while the slow line runs
 				c.PauseUs[first+1] = 400000
 				st.Class("line-taking-seconds")
+			}
+			if rapid.IntRange(0, 2).Draw(rt, "sibling") == 0 {
+				c.Sibling = true
+				st.Class("with-a-busy-sibling-program")
 			}
 			if rapid.Bool().Draw(rt, "elsestop") {
 				c.ElseStop = true
